@@ -19,13 +19,14 @@ def shards(tier):
 
 def floors(tier):
     return {"cases": 5000, "padded": 1500, "pad_smaller_or_negative": 1500, "with_dot": 500, "error_paths": 1500,
-            "batches": 2000}
+            "batches": 2000, "vocabulary_object_reused": 500}
 
 
 def run(ctx):
     sf = env.load_selfies()
     rng = ctx.rng
     quick = ctx.tier == "quick"
+    shared_stoi, shared_itos = {}, {}
     for it in range(2500 if quick else 40000):
         syms = list(SYMS)
         rng.shuffle(syms)
@@ -35,6 +36,14 @@ def run(ctx):
             voc[rng.randrange(k)] = '[nop]'
         stoi = {s: i for i, s in enumerate(voc)}
         itos = {i: s for s, i in stoi.items()}
+        if it % 3 == 0:
+            # one long-lived vocabulary object, changed in place between calls (grows, shrinks, is re-numbered)
+            shared_stoi.clear()
+            shared_stoi.update(stoi)
+            shared_itos.clear()
+            shared_itos.update(itos)
+            stoi, itos = shared_stoi, shared_itos
+            ctx.count("vocabulary_object_reused")
         body = [s for s in voc if s != '.']
         toks = [rng.choice(body) for _ in range(rng.randint(0, 12))]
         if '.' in stoi and len(toks) >= 2 and rng.random() < 0.5:
